@@ -300,8 +300,8 @@ func (r *runner) drain() bool {
 		r.mu.Unlock()
 		if np != lastPushed {
 			lastPushed, callsAtPush = np, r.store.Calls()
-		} else if r.store.Calls()-callsAtPush > 50000 {
-			// tens of thousands of storage calls without a single hand-off: the queue spins (e.g. read index past
+		} else if r.store.Calls()-callsAtPush > 3000 {
+			// thousands of storage calls without a single hand-off: the queue spins (e.g. read index past
 			// the write index).  Whatever is still owed will never be handed over by this incarnation.
 			r.rec.add(Event{Ev: "note", Text: "drain livelock: storage calls without hand-off"})
 			livelock = true
@@ -341,7 +341,11 @@ func (r *runner) drain() bool {
 func runScript(sc Script) []Event {
 	r := &runner{sc: sc, rec: &recorder{}, store: xh.NewStore(), gates: map[string]*gate{}, pushedInDrain: map[string]bool{}}
 	r.store.BlockDead = true
+	nstore := 0
 	r.store.OnCall = func(c xh.CallRec) {
+		if nstore++; nstore > 1500 {
+			return // a spinning queue would otherwise record without bound; such a trace is not sampled for strict validation
+		}
 		a := c.After
 		r.rec.add(Event{Ev: "store", Inc: c.Inc, N: c.N, Ops: c.Ops, After: &a})
 	}
@@ -511,20 +515,6 @@ func main() {
 		}
 		scripts = append(scripts, s)
 	}
-	results := make([][]Event, len(scripts))
-	par := 16
-	sem := make(chan struct{}, par)
-	var wg sync.WaitGroup
-	for i := range scripts {
-		wg.Add(1)
-		sem <- struct{}{}
-		go func(i int) {
-			defer wg.Done()
-			defer func() { <-sem }()
-			results[i] = runScript(scripts[i])
-		}(i)
-	}
-	wg.Wait()
 	out, err := os.Create(os.Args[3])
 	if err != nil {
 		fmt.Fprintln(os.Stderr, err)
@@ -532,10 +522,30 @@ func main() {
 	}
 	w := bufio.NewWriter(out)
 	enc := json.NewEncoder(w)
-	for _, evs := range results {
-		for _, e := range evs {
+	// results are written in script order as soon as they are complete (bounded memory)
+	results := make([][]Event, len(scripts))
+	doneCh := make([]chan struct{}, len(scripts))
+	for i := range doneCh {
+		doneCh[i] = make(chan struct{})
+	}
+	par := 16
+	sem := make(chan struct{}, par)
+	go func() {
+		for i := range scripts {
+			sem <- struct{}{}
+			go func(i int) {
+				defer func() { <-sem }()
+				results[i] = runScript(scripts[i])
+				close(doneCh[i])
+			}(i)
+		}
+	}()
+	for i := range scripts {
+		<-doneCh[i]
+		for _, e := range results[i] {
 			_ = enc.Encode(e)
 		}
+		results[i] = nil
 	}
 	w.Flush()
 	out.Close()
